@@ -135,3 +135,4 @@ PLAN["C12"]["apalache"] = ("LibItInd.tla", [
     ("IndInv /\\ Next => IndInv'", ["--init=IndInit", "--inv=IndInv", "--length=1"]),
     ("IndInv => Safety", ["--init=IndInit", "--inv=Safety", "--length=0"]),
 ])
+PLAN["C12"]["tlaps"] = "LibItProof.tla"
